@@ -481,6 +481,97 @@ pub fn run(args: &[String]) -> i32 {
             check_graph(&g, lang, &ch.choices(), "ambient", acc);
         });
     }
+    // 6. items sharing a name (two modules of one file: `Twin` and `v2::Twin`): the ordering step is handed both and must emit both
+    {
+        const TWIN_KINDS: [&str; 5] = ["struct", "enum-newtype", "enum-unit", "alias", "const"];
+        fn twin(kind: &str, tag: &str) -> Item {
+            match kind {
+                "struct" => Item::strukt("Twin", vec![Field::new(&format!("own_{tag}"), Ty::Prim("u32"))]),
+                "enum-newtype" => Item::enumm("Twin", vec![Variant::new(&format!("Own{tag}"), VKind::Newtype(Ty::Prim("u32")))]),
+                "enum-unit" => Item::enumm("Twin", vec![Variant::new(&format!("Own{tag}"), VKind::Unit), Variant::new("Other", VKind::Unit)]),
+                "alias" => Item::new("Twin", IKind::Alias(Ty::Prim(if tag == "A" { "String" } else { "u32" }))),
+                _ => Item::new("Twin", IKind::Const { ty: Ty::Prim("u32"), expr: if tag == "A" { "1".into() } else { "2".into() } }),
+            }
+        }
+        let (accs, stats) = explore(
+            |ch| {
+                ch.choose("first_kind", TWIN_KINDS.len());
+            },
+            |ch, acc: &mut Acc| {
+                let ka = TWIN_KINDS[ch.choose("first_kind", TWIN_KINDS.len())];
+                let kb = TWIN_KINDS[ch.choose("second_kind", TWIN_KINDS.len())];
+                let placement = ch.choose("placement", 3); // second in `mod v2`; first in `mod v1`; both in modules
+                let referrer = ch.choose("referrer", 3); // none; a struct listed after; a struct listed before
+                let lang = *ch.pick("lang", &LANGS);
+                if (ka == "const" || kb == "const") && !matches!(lang, Lang::TypeScript | Lang::Go | Lang::Python) {
+                    acc.out_of_scope += 1;
+                    return;
+                }
+                let mut a = twin(ka, "A");
+                let mut b = twin(kb, "B");
+                if placement != 0 {
+                    a.mods = vec!["v1".into()];
+                }
+                if placement != 1 {
+                    b.mods = vec!["v2".into()];
+                }
+                let user = Item::strukt("Referrer", vec![Field::new("t", Ty::user("Twin"))]);
+                let items = match referrer {
+                    0 => vec![a, b],
+                    1 => vec![a, b, user],
+                    _ => vec![user, a, b],
+                };
+                let file = File::single(items);
+                acc.runs += 1;
+                let ok = match refmodel::run_single(&file, lang, &Cfg::plain()) {
+                    Ok(ok) => ok,
+                    Err((RunFail::Render(e), source)) => {
+                        acc.machinery(format!("renderer produced invalid Rust: {e}\n{source}"));
+                        return;
+                    }
+                    // Python: two algebraic enums of one name share their helper class names, which the reader of the
+                    // output cannot tell apart; the two union definitions are counted in the text instead
+                    Err((RunFail::Extract { text, .. }, source)) if lang == Lang::Python && ka == "enum-newtype" && kb == "enum-newtype" => {
+                        acc.judgements += 1;
+                        let found = text.lines().filter(|l| l.starts_with("Twin = ")).count();
+                        if found != 2 {
+                            acc.vios.add(Violation {
+                                sig: format!("C11|python|{}|same-name-items|kinds={ka}+{kb}", if found < 2 { "definition-lost" } else { "definition-duplicated" }),
+                                detail: json!({"choices": ch.choices(), "lang": "python", "source": source, "output": text, "definitions_named_Twin": found}),
+                            });
+                        }
+                        return;
+                    }
+                    Err((fail, source)) => {
+                        acc.vios.add(Violation {
+                            sig: format!("C11|{}|no-output:{}|same-name-items|kinds={ka}+{kb}", lang.name(), fail.class()),
+                            detail: json!({"choices": ch.choices(), "lang": lang.name(), "source": source, "failure": fail.describe()}),
+                        });
+                        return;
+                    }
+                };
+                acc.inputs.insert(report::fnv64(&ok.source));
+                acc.nontrivial.insert(report::fnv64(&format!("{}|{}", ok.source, lang.name())));
+                acc.judgements += 1;
+                // (constants are printed in the backend's constant case: TWIN)
+                let found = ok.out.defs.iter().filter(|d| d.name().eq_ignore_ascii_case("Twin")).count();
+                let total_want = 2 + (referrer != 0) as usize;
+                if found != 2 || ok.out.defs.len() != total_want {
+                    acc.vios.add(Violation {
+                        sig: format!("C11|{}|{}|same-name-items|kinds={ka}+{kb}", lang.name(), if found < 2 { "definition-lost" } else { "definition-duplicated" }),
+                        detail: json!({"choices": ch.choices(), "lang": lang.name(), "kinds": [ka, kb], "source": ok.source, "output": ok.text, "definitions_named_Twin": found, "definitions": ok.out.defs.iter().map(|d| d.name().to_string()).collect::<Vec<_>>(),
+                            "observation": "two annotated items named Twin were parsed; the emitted definitions must be a permutation of the parsed items"}),
+                    });
+                }
+                acc.outcomes.insert(report::fnv64(&format!("{}|{found}", lang.name())));
+            },
+            Mode::Product,
+            2,
+            report::threads(),
+            u64::MAX,
+        );
+        merge(&mut rep, "items_sharing_a_name", accs, &stats, json!({"kinds_of_each": TWIN_KINDS, "placement": ["second in mod v2", "first in mod v1", "both in modules"], "referrer": ["none", "listed after", "listed before"], "languages": 5}));
+    }
     // (c) eagerly evaluated Python: the module of every acyclic graph with aliases / unions must import
     {
         let mods = std::mem::take(&mut *PY_MODULES.lock().unwrap());
